@@ -71,12 +71,26 @@ def np_dtype(case):
 
 
 def build_array(case):
-    """the structured array whose memory image is exactly the case's element bytes"""
+    """the structured array whose rows hold exactly the case's element bytes.  With case["view"] = [start, step] the
+    array is the strided view base[start::step] of a larger array whose other rows are zero (same table, other memory
+    layout); otherwise it is contiguous."""
     import numpy as np
     dt = np_dtype(case)
-    raw = b"".join(el_bytes(f, el) for r in case["rows"] for f, els in zip(case["fields"], r) for el in els)
-    assert len(raw) == dt.itemsize * len(case["rows"]), (len(raw), dt)
-    return np.frombuffer(raw, dtype=dt).copy()
+    rows = [b"".join(el_bytes(f, el) for f, els in zip(case["fields"], r) for el in els) for r in case["rows"]]
+    assert all(len(x) == dt.itemsize for x in rows), (dt, [len(x) for x in rows])
+    if case.get("view"):
+        start, step = case["view"]
+        n = len(rows)
+        total = start + step * (n - 1) + 1 + 1
+        buf = bytearray(dt.itemsize * total)
+        for i, x in enumerate(rows):
+            k = start + step * i
+            buf[k * dt.itemsize:(k + 1) * dt.itemsize] = x
+        base = np.frombuffer(bytes(buf), dtype=dt).copy()
+        a = base[start:start + step * (n - 1) + 1:step]
+        assert a.shape[0] == n
+        return a
+    return np.frombuffer(b"".join(rows), dtype=dt).copy()
 
 
 def f8_of_bits(h):
@@ -273,7 +287,10 @@ class _Base(Entry):
         return c.get("family", self.name)
 
     def classify(self, c, out, v):
-        return KF if v & 4 else None
+        if v & 4:
+            return KF
+        # a strided view written wrongly: Records::Write ignores strides (repaired by fixes/C01/0002-…, Recfile.write)
+        return "noncontiguous_view" if c.get("view") else None
 
 
 class SFileRT(_Base):
@@ -286,7 +303,7 @@ class SFileRT(_Base):
         out = {}
         try:
             try:
-                sfile.write(a.copy(), fn, delim=c["delim"])
+                sfile.write(a, fn, delim=c["delim"])
             except Exception as e:  # noqa
                 return {"write_err": [core.errclass(e), "%s: %s" % (type(e).__name__, str(e)[:200])]}
             raw = open(fn, "rb").read()
@@ -333,7 +350,7 @@ class RecfileRT(_Base):
         try:
             try:
                 with recfile.Recfile(fn, mode="w", delim=c["delim"]) as r:
-                    r.write(a.copy())
+                    r.write(a)
             except Exception as e:  # noqa
                 return {"write_err": [core.errclass(e), "%s: %s" % (type(e).__name__, str(e)[:200])]}
             out["text"] = open(fn, "rb").read().hex()
@@ -582,6 +599,13 @@ def gen_cases(ctx, round, entry):
                 kinds[r.randrange(nrows)] = True
                 cs.append({"delim": d, "fields": f, "family": "blank-rows",
                            "rows": [[[blank() if kb else word()] for _ in range(ncol)] for kb in kinds]})
+        # -- the same tables handed over as strided views of a larger array (memory layout is not part of the table)
+        for d in DELIMS:
+            f = [{"name": "i", "t": r.choice(INT_T), "o": r.choice("<>"), "shape": []}, {"name": "s", "t": "S3", "o": "|", "shape": [2]},
+                 {"name": "x", "t": r.choice(FLT_T), "o": r.choice("<>"), "shape": []}]
+            c = mk_case(r, f, r.randint(2, 5), d, "strided-view", True)
+            c["view"] = [r.randint(0, 2), r.randint(2, 3)]
+            cs.append(c)
         # -- many rows
         for nrows in ((37,) if q else (37, 150, 1000)):
             f = [{"name": "i", "t": "i8", "o": ">", "shape": []}, {"name": "s", "t": "S2", "o": "|", "shape": []},
@@ -640,6 +664,7 @@ def differential(ctx, entries, replay_case=None):
             ctx.count("verdict:%s:%d%s" % (ent.name, v & 3, ":known-class" if v & 4 else ""))
             ctx.count("delim:%r" % c["delim"])
             ctx.count("rows:%d" % len(c["rows"]))
+            ctx.count("layout:%s" % ("strided-view" if c.get("view") else "contiguous"))
             for f in c["fields"]:
                 ctx.count("type:%s%s" % (f["t"] if f["t"][0] != "S" else "S", "" if not f["shape"] else "[%dd]" % len(f["shape"])))
             if o.get("read", ["ok"])[0] == "err":
